@@ -17,6 +17,11 @@
      float64 / float32 / object / range-labelled / empty models and views, incl. dense matrices and arrays LARGER than
      the model with invalid content: a rejected call leaves the full observable state (labels, coefficients through
      three read paths, counts, native size, the base model of a view) unchanged.
+(iv) (`c20_pyseq.py`) VALID Python call sequences on two cooperating models (update / += / + / - / -= / symbolic sums /
+     from_bqm / QM.update(BQM); receiver empty / linear-only / with interactions / with a self-loop; shared variables in the
+     same or a permuted order; float64 / float32) + single edits of the result + a small-scope exhaustive sweep: after every
+     line the native adjacency read through the public API is well-formed (strictly sorted neighbourhoods, symmetric,
+     binary-search lookups from both sides, counts) and holds the independently computed polynomial.
 """
 import json
 import os
@@ -29,7 +34,7 @@ from concurrent.futures import ThreadPoolExecutor
 from fractions import Fraction as F
 
 from harness.common import VERIF, rat, run_driver
-from harness.props import c20_cpp, c20_sweep
+from harness.props import c20_cpp, c20_sweep, c20_pyseq
 
 PY = '/venv/bin/python'
 
@@ -67,6 +72,50 @@ def render(st):
             f"lin?={1 if st['is_linear'] else 0};bvt={st.get('bvt', '-')}")
 
 
+CQM_STEPPED = ({'kadd', 'krm', 'kassign', 'kswap', 'crv', 'cfx', 'csv', 'cslb', 'csup', 'csvt'}
+               | {p + e for p in 'ok' for e in ('al', 'sl', 'aq', 'ri', 'rv', 'sv')})
+
+
+def cx_expr(e, empty):
+    j = lambda xs: ','.join(xs) or empty
+    rows = '|'.join(','.join(f'{v}:{rat(b)}' for v, b in row) for row in e['adj']) or empty
+    return f"{j(str(v) for v in e['vars'])}~{j(rat(x) for x in e['lin'])}~{rows}~{rat(e['off'])}"
+
+
+def cx_state(st, empty):
+    """a parsed CQM state of the interpreter in the text of the cppdriver's `cx` command (`empty` = '-' on input, '' in
+    the driver's answer)"""
+    j = lambda xs: ','.join(xs) or empty
+    return ' '.join([''.join(st['vt']) or empty, j(rat(x) for x in st['lb']), j(rat(x) for x in st['ub']), cx_expr(st['obj'], empty),
+                     ';'.join(cx_expr(c, empty) for c in st['cons']) or empty])
+
+
+def cx_canon(text):
+    """a `cx` state text up to the order in which an expression lists its variables (`Expression::add_quadratic` evaluates
+    `enforce_variable(u)` and `enforce_variable(v)` in an order the C++ standard leaves to the compiler): per expression the
+    linear bias per global variable, the bias per directed pair of global variables, the offset"""
+    parts = text.split(' ')
+    if len(parts) != 5:
+        return text
+    def ex(t):
+        vs, lin, adj, off = t.split('~')
+        vs = [int(x) for x in vs.split(',')] if vs not in ('', '-') else []
+        lin = lin.split(',') if lin not in ('', '-') else []
+        rows = adj.split('|') if adj not in ('', '-') else []
+        rows = rows + [''] * (len(vs) - len(rows))
+        quad = sorted((vs[i], vs[int(e.split(':')[0])], e.split(':')[1]) for i, r in enumerate(rows) for e in r.split(',') if e)
+        return (sorted(zip(vs, lin)), quad, off, len(lin) == len(vs) == len(rows))
+    return (parts[0].replace('-', ''), parts[1].replace('-', '') if parts[1] == '-' else parts[1], parts[2] if parts[2] != '-' else '',
+            ex(parts[3]), [ex(t) for t in parts[4].split(';')] if parts[4] not in ('', '-') else [])
+
+
+def cx_finite(st):
+    vals = list(st['lb']) + list(st['ub'])
+    for e in [st['obj']] + list(st['cons']):
+        vals += [e['off']] + list(e['lin']) + [b for row in e['adj'] for _, b in row]
+    return all(isinstance(x, F) for x in vals)
+
+
 def load_line(st):
     j = ','.join
     rows = '|'.join(j(f'{v}:{rat(b)}' for v, b in row) for row in st['adj']) or '-'
@@ -81,7 +130,7 @@ def finite(st):
 
 
 REPLAY_SRC = '''import os, sys, dimod
-from harness.props import c20_cpp, c20_sweep
+from harness.props import c20_cpp, c20_sweep, c20_pyseq
 inc = os.path.join(os.path.dirname(dimod.__file__), 'include')
 exe = c20_cpp.build(inc, os.path.join(os.environ.get('VERIF_SCRATCH', '/var/tmp/dimod-verif'), 'c20-cache'))
 ops = %r
@@ -111,6 +160,7 @@ def cpp_part(ctx):
     nseq = ctx.scale(100, 2500)
     nops = ctx.scale(50, 100)
     lean_lines, lean_expect, lean_meta = [], [], []
+    cx_lines, cx_expect, cx_meta = [], [], []
     hist = __import__('collections').Counter()
     for kind in ('bqm', 'qm', 'cqm'):
         for k in range(nseq):
@@ -141,6 +191,21 @@ def cpp_part(ctx):
                          f'{kind} sequence of {len(fail.ops)} valid ops: {fail.detail[-700:]}',
                          repro=REPLAY_SRC % (list(fail.ops),), detail=dict(ops=list(fail.ops), stderr=fail.detail[-3000:]))
                 continue
+            # Expression / Constraint / CQM slots: every modelled call is replayed on the Lean model (`Cqm.cstep`, checked by
+            # `Cqm.cstep?`) from the state the interpreter printed before it, and the state after is compared
+            last = {}
+            for op, line, rep in log:
+                w = norm_op(op).split()
+                cs = [t for t in w[1:] if re.fullmatch(r'c\d', t)]
+                if (rep['status'] == 'ok' and w[0] in CQM_STEPPED and len(cs) == 1 and w[1] == cs[0] and cs[0] in last
+                        and cs[0] in rep['states'] and cx_finite(last[cs[0]]) and cx_finite(rep['states'][cs[0]])):
+                    cx_lines.append('cx ' + cx_state(last[cs[0]], '-') + ' ' + ' '.join([w[0]] + w[2:]))
+                    cx_expect.append(cx_state(rep['states'][cs[0]], ''))
+                    cx_meta.append((kind, op))
+                    ctx.tick('cx:' + w[0])
+                for name, st in rep['states'].items():
+                    if st['kind'] == 'cqm':
+                        last[name] = st
             # correspondence lines for the Lean index-level model
             for op, line, rep in log:
                 w = op.split()
@@ -157,7 +222,17 @@ def cpp_part(ctx):
                             lean_lines.append(load_line(st)); lean_expect.append(None); lean_meta.append((kind, 'load'))
     for name, c in hist.items():
         ctx.tick('cpp:' + name, c)
+    alphabet_part(ctx, inc, hist)
     ctx.extra['cpp_seconds'] = round(time.time() - t0, 1)
+    gotx = run_driver('cppdriver', cx_lines)
+    ctx.corr_lines += len(cx_lines)
+    for i, ln in enumerate(cx_lines):
+        g = gotx[i] if i < len(gotx) else 'MISSING'
+        if g != cx_expect[i] and cx_canon(g) != cx_canon(cx_expect[i]):
+            ctx.fail('correspondence', 'C++ headers vs Lean Expression / CQM model', cx_meta[i][1].split()[0],
+                     f'line {i} `{ln}`: interpreter `{cx_expect[i]}` model `{g}`' + (' (the checked call hits a failing vector access)' if g == 'UB' else ''))
+            break
+    ctx.extra['cx_lines'] = len(cx_lines)
     got = run_driver('cppdriver', lean_lines)
     ctx.corr_lines += len(lean_lines)
     for i, ln in enumerate(lean_lines):
@@ -168,6 +243,41 @@ def cpp_part(ctx):
             ctx.fail('correspondence', 'C++ headers vs Lean CppM', lean_meta[i][1].split()[0],
                      f'line {i} `{ln}`: interpreter `{lean_expect[i]}` model `{g}`', detail=dict(prev=lean_lines[max(0, i - 6):i]))
             break
+
+
+def alphabet_part(ctx, inc, hist):
+    """coverage of the op alphabet, checked: every public mutator of QuadraticModelBase found in abc.h (name, arity,
+    initializer-list overload; harness/translators/c20_abc_mutators.py) is called with that arity by an op of
+    harness/cpp/interp.cc, that op is one the Lean driver executes (`Cpp.driverOps` = MODELLED) and the generator emitted it
+    in this run"""
+    import importlib.util
+    spec = importlib.util.spec_from_file_location('c20_abc_mutators', os.path.join(VERIF, 'harness', 'translators', 'c20_abc_mutators.py'))
+    T = importlib.util.module_from_spec(spec); spec.loader.exec_module(T)
+    muts, _ = T.mutators(os.path.join(inc, 'dimod', 'abc.h'))
+    calls = T.interp_calls()
+    lean_src = open(os.path.join(VERIF, 'lean', 'DimodModel', 'CppCover.lean')).read()
+    m = re.search(r'def driverOps : List String :=\s*\[(.*?)\]', lean_src, flags=re.S)
+    driver_ops = set(re.findall(r'"(\w+)"', m.group(1))) if m else set()
+    if driver_ops != MODELLED:
+        ctx.fail('correspondence', 'op alphabet', 'Cpp.driverOps differs from the ops the harness sends to the model',
+                 f'only in Lean: {sorted(driver_ops - MODELLED)}, only in c20.py: {sorted(MODELLED - driver_ops)}')
+    cover = dict((tuple([n, int(a), il == 'true']), re.findall(r'"(\w+)"', ops))
+                 for n, a, il, ops in re.findall(r'\(\("(\w+)", (\d+), (true|false)\), \[(.*?)\]\)', lean_src))
+    for s in muts:
+        name = f'{s[0]}/{s[1]}' + ('/initializer_list' if s[2] else '')
+        toks = sorted(t for t, cs in calls.items() if s in cs)
+        if not toks:
+            ctx.fail('correspondence', 'op alphabet', f'{name} not exercised', f'abc.h declares the public mutator {name}; no op of harness/cpp/interp.cc calls it with that arity')
+        elif not any(t in MODELLED for t in toks):
+            ctx.fail('correspondence', 'op alphabet', f'{name} not modelled', f'{name} is called by {toks}, none of which the Lean driver executes')
+        elif not any(hist.get(t) for t in toks):
+            ctx.fail('correspondence', 'op alphabet', f'{name} not generated', f'{name} is called by {toks}; the generator emitted none of them in this run')
+        elif sorted(cover.get(tuple(s), [])) != [t for t in toks]:
+            ctx.fail('correspondence', 'op alphabet', f'{name}: coverage table out of step',
+                     f'Cpp.cover says {cover.get(tuple(s))}, interp.cc calls it under {toks}')
+        else:
+            ctx.tick('abc-mutator-covered:' + name, sum(hist.get(t, 0) for t in toks))
+    ctx.extra['abc_public_mutators'] = len(muts)
 
 
 # ---------------------------------------------------------------- (ii) Python boundary
@@ -569,8 +679,11 @@ def dqm_sweep_part(ctx):
 def run(ctx):
     ctx.rule = ('(i) random sequences of VALID calls on the C++ header API (ASan+UBSan+assertions), one case per op: invariants on the '
                 'printed state, const API consistency, Lean model; (ii) one malformed Python call per child process on fresh objects; '
-                'non-trivial = all (every op changes or probes a state; every malformed call exercises a rejection path)')
+                'non-trivial = all (every op changes or probes a state; every malformed call exercises a rejection path); '
+                '(iv) valid Python call sequences on two cooperating QM / BQM models (receiver class x shared-variable order x operator), '
+                'native adjacency audited through the public API after every line')
     cpp_part(ctx)
     boundary_part(ctx)
     dqm_sweep_part(ctx)
     c20_sweep.sweep_part(ctx)
+    c20_pyseq.pyseq_part(ctx)
